@@ -159,6 +159,17 @@ CHECKS.update({
             TRUST_HTTP + ' The validator gets the server-side representation info exactly as upstream\'s own test harness provides it.', '4.18'),
 })
 
+CHECKS.update({
+    'C04': ('exploration',
+            'differential round-trip monitor on the real Mp4Atom.load / encode / toJSON / fromJSON / edit API against an independent from-the-specification box writer (generator) and box walker (oracle)',
+            'Generated trees of every registered box class (versions, flag-gated fields, empty lists, boundary widths, 64-bit sizes, uuid headers; codec '
+            'configuration boxes grafted from every fixture stsd with mutated numeric fields) x mode {r,rw} x lazy {off,on} x two reader types; eager/lazy '
+            'toJSON equality; JSON round trip; edit programs (assign/insert/append/remove) judged by the walker (exact nesting, untouched boxes identical, '
+            'assigned values read back independently).',
+            'Trusted: dlv.oracles.boxwriter and dlv.oracles.isobmff (written from ISO/IEC 14496-12, 23001-7, 23009-1; self-tested against the fixtures). '
+            'Well-formedness of the generated input is the generator\'s claim; every generated file is first accepted by the independent walker.', '4.4'),
+})
+
 NOT_YET = {}
 
 
